@@ -317,7 +317,13 @@ impl Info {
 }
 
 pub fn infos<const K: usize>(toks: &[super::sym::Tok; K]) -> [Info; K] {
-    core::array::from_fn(|i| info(&toks[i]))
+    let mut a = [Info { n: 0, alpha: false, digit: false, alnum: false, d0: false, a0: false, a1: false, d1: false, an0: false, low: NOTXT }; K];
+    let mut i = 0;
+    while i < K {
+        a[i] = info(&toks[i]);
+        i += 1;
+    }
+    a
 }
 
 /// Parse `toks[..k]` as  language (script)? (region)? (variant)*.
@@ -563,4 +569,29 @@ pub fn langid_matches(a: &LangIdModel, b: &LangIdModel, ra: bool, rb: bool) -> b
         && f(a.script.is_none(), b.script.is_none(), opt_txt_eq(&a.script, &b.script))
         && f(a.region.is_none(), b.region.is_none(), opt_txt_eq(&a.region, &b.region))
         && f(a.nvariants == 0, b.nvariants == 0, variants_eq(a, b))
+}
+
+// ---- byte level: split on '-' / '_' then the token-level recogniser ---------------------------
+
+/// reference split of `buf[..n]` (n <= L) into at most L+1 subtags
+pub fn split_ref<const L: usize, const K: usize>(buf: &[u8; L], n: usize) -> ([super::sym::Tok; K], usize) {
+    let mut toks = [super::sym::Tok::lit(b""); K];
+    let mut k = 0usize;
+    let mut cur = 0usize;
+    let mut i = 0;
+    while i < L {
+        if i < n {
+            if is_sep(buf[i]) {
+                k += 1;
+                cur = 0;
+            } else {
+                // K == L + 1 subtags can never overflow; each subtag is at most L <= 9 bytes
+                toks[k].b[cur] = buf[i];
+                cur += 1;
+                toks[k].n = cur;
+            }
+        }
+        i += 1;
+    }
+    (toks, k + 1)
 }
